@@ -39,7 +39,7 @@ CHECKS = {
         "histories to the depth bound; each transition of the first levels and of simulated deeper behaviours is executed on real "
         "Config objects and the projected state compared; random operation logs from real objects are validated by TLC "
         "(Trace_Config) with the predicates evaluated on every observed state.",
-        note="Bounded instance MC_Config/SchemaA (scalars with bounds/transforms, typed list and dict, nested schemas with a validator, lists of schemas with and without defaults), candidate pools, depth 3 (quick) / 4 (thorough); object identity observed as the set of replaced paths; values outside the model's grammars are marked Unmodelled and skipped (counted in evidence).",
+        note="Bounded instance MC_Config/SchemaA (scalars with bounds/transforms, typed list and dict, nested schemas with a validator, lists of schemas with and without defaults), candidate pools, depth 3 (quick) / 4 (thorough); object identity observed as the set of replaced paths; values outside the model's grammars are marked Unmodelled and skipped (counted in evidence).  Also decided on the generated schema family (MC_Config.MCFamily2/3: every root schema over 16 node shapes, candidate values derived per field kind by ConfigMachine!Gen*): TLC over all 256 (thorough: + 960 three-key) schemas, replay of every 7th (thorough: 2nd) schema's complete depth-1 graph and simulated behaviours on real objects, recorded traces on sampled schemas.",
         technique="TLA+ state machine of Config + TLC invariants/action properties; transition replay into code; TLC trace validation",
         design="5/C01",
     ),
@@ -49,7 +49,7 @@ CHECKS = {
         "incl. map or configuration -> sub-configuration, or a rejected single-element insert/replace on a typed list or dict, "
         "changes nothing: values at all depths, default marks, identity of nested configurations) on ConfigMachine; same two "
         "conformance directions as C01, the trace specification evaluates the predicate on every rejected observed step.",
-        note="Bounded instance MC_Config/SchemaA (scalars with bounds/transforms, typed list and dict, nested schemas with a validator, lists of schemas with and without defaults), candidate pools, depth 3 (quick) / 4 (thorough); object identity observed as the set of replaced paths; values outside the model's grammars are marked Unmodelled and skipped (counted in evidence).  The document-load clause is covered where loads are modelled (C18 machinery) once built.",
+        note="Bounded instance MC_Config/SchemaA (scalars with bounds/transforms, typed list and dict, nested schemas with a validator, lists of schemas with and without defaults), candidate pools, depth 3 (quick) / 4 (thorough); object identity observed as the set of replaced paths; values outside the model's grammars are marked Unmodelled and skipped (counted in evidence).  Also decided on the generated schema family (MC_Config.MCFamily2/3: every root schema over 16 node shapes, candidate values derived per field kind by ConfigMachine!Gen*): TLC over all 256 (thorough: + 960 three-key) schemas, replay of every 7th (thorough: 2nd) schema's complete depth-1 graph and simulated behaviours on real objects, recorded traces on sampled schemas.  The document-load clause is covered where loads are modelled (C18 machinery) once built.",
         technique="TLA+ action property over all routes x rejected values x prior states; replay into code; TLC trace validation",
         design="5/C06",
     ),
@@ -59,7 +59,7 @@ CHECKS = {
         "C12_Marks (the mark leaves exactly on an accepted assignment, never on a rejected one) and C12_Reset (value and mark "
         "restored, frame) on ConfigMachine over all interleavings of set / failed set / load / reset / constructor to the depth bound; "
         "conformance as for C01 with is_value_defined projected for every key at every depth.",
-        note="Bounded instance MC_Config/SchemaA (scalars with bounds/transforms, typed list and dict, nested schemas with a validator, lists of schemas with and without defaults), candidate pools, depth 3 (quick) / 4 (thorough); object identity observed as the set of replaced paths; values outside the model's grammars are marked Unmodelled and skipped (counted in evidence).",
+        note="Bounded instance MC_Config/SchemaA (scalars with bounds/transforms, typed list and dict, nested schemas with a validator, lists of schemas with and without defaults), candidate pools, depth 3 (quick) / 4 (thorough); object identity observed as the set of replaced paths; values outside the model's grammars are marked Unmodelled and skipped (counted in evidence).  Also decided on the generated schema family (MC_Config.MCFamily2/3: every root schema over 16 node shapes, candidate values derived per field kind by ConfigMachine!Gen*): TLC over all 256 (thorough: + 960 three-key) schemas, replay of every 7th (thorough: 2nd) schema's complete depth-1 graph and simulated behaviours on real objects, recorded traces on sampled schemas.",
         technique="TLA+ invariants/action properties on default marks; replay into code; TLC trace validation",
         design="5/C12",
     ),
@@ -69,7 +69,7 @@ CHECKS = {
         "ConfigMachine; because the specification has value semantics, any aliasing in the implementation (shared default lists, "
         "shared item configurations, shared sub-configurations) shows up in conformance as a state change of the untouched "
         "configuration that the specification does not allow.",
-        note="Bounded instance MC_Config/SchemaA (scalars with bounds/transforms, typed list and dict, nested schemas with a validator, lists of schemas with and without defaults), candidate pools, depth 3 (quick) / 4 (thorough); object identity observed as the set of replaced paths; values outside the model's grammars are marked Unmodelled and skipped (counted in evidence).",
+        note="Bounded instance MC_Config/SchemaA (scalars with bounds/transforms, typed list and dict, nested schemas with a validator, lists of schemas with and without defaults), candidate pools, depth 3 (quick) / 4 (thorough); object identity observed as the set of replaced paths; values outside the model's grammars are marked Unmodelled and skipped (counted in evidence).  Also decided on the generated schema family (MC_Config.MCFamily2/3: every root schema over 16 node shapes, candidate values derived per field kind by ConfigMachine!Gen*): TLC over all 256 (thorough: + 960 three-key) schemas, replay of every 7th (thorough: 2nd) schema's complete depth-1 graph and simulated behaviours on real objects, recorded traces on sampled schemas.",
         technique="TLA+ action property (frame on the other configuration); replay into code exposes aliasing; TLC trace validation",
         design="5/C13",
     ),
@@ -81,7 +81,7 @@ CHECKS = {
         "(continuing with the re-loaded configuration) and renders; every transition of the level<=2 graph and of simulated "
         "behaviours is executed on a real Config: real dumps in the event's format, real loads into a fresh Config with the same "
         "key file, the real tree abstracted with independent cipher/hash implementations and compared leaf by leaf.",
-        note="Bounded instance MC_Persist/SchemaP (scalars, bytes, digest, secrets with methods xor/aes/best, typed list/dict of bytes and secrets, nested schema, config type naming its own key file with a nested schema below it, list of schemas with secrets, virtual fields), fixed candidate values, depth 3/4; formats are a typed channel in the specification (the real encoders run in conformance); ciphertexts/digests abstracted by independent AES/XOR/hashlib implementations.",
+        note="Bounded instance MC_Persist/SchemaP (scalars, bytes, digest, secrets with methods xor/aes/best, typed list/dict of bytes and secrets, nested schema, config type naming its own key file with a nested schema below it, list of schemas with secrets, virtual fields), fixed candidate values, depth 3/4; formats are a typed channel in the specification (the real encoders run in conformance); ciphertexts/digests abstracted by independent AES/XOR/hashlib implementations.  The round trip (dumps in each of the five real formats, load into a fresh configuration) is also an action of ConfigMachine (RoundTrip, predicate C02_Reproduces there; YAML key sorting and XML's key domain modelled as the format channel) and is decided on the generated schema family as for C01.",
         technique="TLA+ machine of to_tree/load_tree/round trip + TLC action property; transition replay with real documents in all five formats",
         design="5/C02",
     ),
@@ -151,7 +151,7 @@ CHECKS = {
         "for random values of every shape.",
         note="Bounded instance MC_Config/SchemaA with nested schemas, a config type, lists of schemas and of config types (equal "
         "items), typed dicts at three positions; unknown keys, read-only virtual fields and container index/key errors are outside "
-        "the statement; the index reported for an item rejected by insert()/item assignment is left free.",
+        "the statement; the index reported for an item rejected by insert()/item assignment is left free.  Also decided on the generated schema family (MC_Config.MCFamily2/3: every root schema over 16 node shapes, candidate values derived per field kind by ConfigMachine!Gen*): TLC over all 256 (thorough: + 960 three-key) schemas, replay of every 7th (thorough: 2nd) schema's complete depth-1 graph and simulated behaviours on real objects, recorded traces on sampled schemas.",
         technique="TLA+ error-path model over the containment structure + TLC invariant; replay compares ref_path and exception class",
         design="5/C15",
     ),
